@@ -158,12 +158,14 @@ def _build(b):
     else:
         b.expect("fragment-request", "Read Tag Fragmented frame (offset 0x1234)", RTF, req(r2), connected_frame(b"\x07\x00" + b"\x52" + PATH + b"\x03\x00" + b"\x34\x12\x00\x00"), norm=_mask_timeout)
     if r1 is not None and r2 is not None:
-        for label, args, off in (("continuation at offset 500", ([9], r1, 500), 500), ("first fragment (no offset given)", ([9], r1), 0)):
+        # (the last source is itself a fragment request with an offset of its own: the new offset is the one given - the bytes received
+        # so far - not relative to the source's)
+        for label, args, off in (("continuation at offset 500", ([9], r1, 500), 500), ("first fragment (no offset given)", ([9], r1), 0), ("continuation of a fragment (source offset 0x1234) at offset 9000", ([9], r2, 9000), 9000)):
             k, nr = b.call(r2, "from_request", *args)
             if k != "return" or not hasattr(nr, "__dict__"):
                 b.rec("fragment-request", f"Read Tag Fragmented.from_request: {label}", RTF, "unknown" if k == "unknown" else "check", False, "a request object", f"{k} {nr}")
                 continue
-            b.fields("fragment-request", f"Read Tag Fragmented.from_request: {label}", RTF, nr, {"tag": "T", "elements": 3, "tag_info": TI_DINT, "request_id": 11, "offset": off, "request_path": r1.__dict__.get("request_path"), "_sequence": 9})
+            b.fields("fragment-request", f"Read Tag Fragmented.from_request: {label}", RTF, nr, {"tag": "T", "elements": 3, "tag_info": TI_DINT, "request_id": 11, "offset": off, "request_path": args[1].__dict__.get("request_path"), "_sequence": 9})
             b.expect("fragment-request", f"Read Tag Fragmented.from_request frame: {label}", RTF, req(nr), connected_frame(b"\x09\x00" + b"\x52" + PATH + b"\x03\x00" + off.to_bytes(4, "little")), norm=_mask_timeout)
 
     # ---------------------------------------------------------------- write requests
